@@ -1,7 +1,409 @@
-//! wire interfaces of the "num" area (see docs/AGENT_GUIDE.md for the id range)
+//! wire interfaces of the "num" area (ids 10-29); the format is documented in
+//! coq/Model/WireNum.v.  Numbers are built DIRECTLY in the requested representation.
 #![allow(unused_imports, dead_code)]
 use crate::text::*;
+use marwood::cell::Cell;
+use marwood::number::Number;
+use marwood::vm::Vm;
+use num::bigint::BigInt;
+use num::traits::{Pow, Signed};
+use num::{CheckedAdd, CheckedDiv, CheckedMul, CheckedSub, FromPrimitive, Integer, Rational32, ToPrimitive};
+use std::cell::RefCell;
+use std::panic::{catch_unwind, AssertUnwindSafe};
 
-pub fn run(_c: &[String]) -> String {
-    "BADCASE".into()
+fn big(s: &str, m: &str) -> BigInt {
+    let v: BigInt = m.parse().unwrap();
+    if s == "0" {
+        v
+    } else {
+        -v
+    }
+}
+
+/// truncating conversion of a (possibly out of range) wire integer to i32/i64 is
+/// never needed: the generators keep fixnums inside i64 and ratio parts inside i32
+fn i64_of(s: &str, m: &str) -> i64 {
+    big(s, m).to_i64().expect("fixnum out of i64 range")
+}
+fn i32_of(s: &str, m: &str) -> i32 {
+    big(s, m).to_i32().expect("ratio component out of i32 range")
+}
+
+enum Arg {
+    Num(Number),
+    Other,
+}
+
+fn decode_num(c: &[String], i: &mut usize) -> Option<Number> {
+    let tag = c.get(*i)?.as_str();
+    match tag {
+        "0" => {
+            let n = Number::Fixnum(i64_of(c.get(*i + 1)?, c.get(*i + 2)?));
+            *i += 3;
+            Some(n)
+        }
+        "1" => {
+            let n = Number::new_bigint(big(c.get(*i + 1)?, c.get(*i + 2)?));
+            *i += 3;
+            Some(n)
+        }
+        "2" => {
+            let n = i32_of(c.get(*i + 1)?, c.get(*i + 2)?);
+            let d = i32_of(c.get(*i + 3)?, c.get(*i + 4)?);
+            *i += 5;
+            Some(Number::Rational(Rational32::new_raw(n, d)))
+        }
+        "3" => {
+            let bits: u64 = c.get(*i + 1)?.parse().ok()?;
+            *i += 2;
+            Some(Number::Float(f64::from_bits(bits)))
+        }
+        _ => None,
+    }
+}
+
+fn decode_arg(c: &[String], i: &mut usize) -> Option<Arg> {
+    if c.get(*i)?.as_str() == "4" {
+        *i += 1;
+        return Some(Arg::Other);
+    }
+    decode_num(c, i).map(Arg::Num)
+}
+
+fn show_f64(f: f64) -> String {
+    if f.is_nan() {
+        "nan".into()
+    } else {
+        format!("{:x}", f.to_bits())
+    }
+}
+
+fn show_num(n: &Number) -> String {
+    match n {
+        Number::Fixnum(z) => format!(" fix {}", z),
+        Number::BigInt(z) => format!(" big {}", z),
+        Number::Rational(r) => format!(" rat {}/{}", r.numer(), r.denom()),
+        Number::Float(f) => format!(" flo {}", show_f64(*f)),
+    }
+}
+fn show_ratio(r: &Rational32) -> String {
+    format!(" {}/{}", r.numer(), r.denom())
+}
+fn show_opt<T>(o: &Option<T>, f: impl Fn(&T) -> String) -> String {
+    match o {
+        Some(x) => f(x),
+        None => " none".into(),
+    }
+}
+fn show_ord(o: &std::cmp::Ordering) -> String {
+    format!(" {:?}", o)
+}
+
+fn binary(op: &str, a: &Number, b: &Number) -> String {
+    match op {
+        "0" => format!("OK{}", show_num(&(a + b))),
+        "1" => format!("OK{}", show_num(&(a - b))),
+        "2" => format!("OK{}", show_num(&(a * b))),
+        "3" => format!("OK{}", show_num(&(a / b))),
+        "4" => format!("OK{}", show_opt(&a.quotient(b), show_num)),
+        "5" => format!("OK{}", show_opt(&(a % b), show_num)),
+        "6" => format!("OK{}", show_opt(&a.modulo(b), show_num)),
+        "7" => format!("OK {}", a == b),
+        "8" => format!("OK{}", show_opt(&a.partial_cmp(b), show_ord)),
+        "9" => format!("OK {}", a < b),
+        "10" => format!("OK {}", a <= b),
+        "11" => format!("OK {}", a > b),
+        "12" => format!("OK {}", a >= b),
+        _ => "BADCASE".into(),
+    }
+}
+
+fn show_int<T: std::fmt::Display>(x: &T) -> String {
+    format!(" {}", x)
+}
+
+fn unary(op: &str, a: &Number) -> String {
+    match op {
+        "0" => format!("OK{}", show_num(&a.abs())),
+        "1" => format!("OK{}", show_num(&a.floor())),
+        "2" => format!("OK{}", show_num(&a.ceil())),
+        "3" => format!("OK{}", show_num(&a.truncate())),
+        "4" => format!("OK{}", show_num(&a.round())),
+        "5" => format!("OK{}", show_num(&a.numerator())),
+        "6" => format!("OK{}", show_num(&a.denominator())),
+        "7" => format!("OK{}", show_opt(&a.to_exact(), show_num)),
+        "8" => format!("OK{}", show_opt(&a.to_inexact(), show_num)),
+        "9" => format!("OK {}", a.is_integer()),
+        "10" => format!("OK{}", show_opt(&a.to_i64(), show_int)),
+        "11" => format!("OK{}", show_opt(&a.to_u64(), show_int)),
+        "12" => format!("OK{}", show_opt(&a.to_u32(), show_int)),
+        "13" => format!("OK{}", show_opt(&a.to_usize(), show_int)),
+        "14" => format!("OK{}", show_opt(&a.to_f64(), |f| format!(" {}", show_f64(*f)))),
+        "15" => format!("OK {}", a.is_zero()),
+        _ => "BADCASE".into(),
+    }
+}
+
+const PROCS: [&str; 29] = [
+    "+", "-", "*", "/", "=", "<", ">", "<=", ">=", "min", "max", "zero?", "positive?", "negative?",
+    "odd?", "even?", "abs", "quotient", "remainder", "modulo", "floor", "ceiling", "truncate",
+    "round", "numerator", "denominator", "expt", "exact->inexact", "inexact->exact",
+];
+
+thread_local! {
+    static VM: RefCell<Option<Vm>> = RefCell::new(None);
+}
+
+/// libm is not modelled: `expt` with a float base, or a rational base with an
+/// exponent above i32::MAX, is answered LIBM on both sides
+fn expt_is_libm(args: &[Arg]) -> bool {
+    if args.len() != 2 {
+        return false;
+    }
+    let e_ok = match &args[1] {
+        Arg::Num(e) => e.is_integer() && e.to_u32().is_some(),
+        _ => false,
+    };
+    if !e_ok {
+        return false;
+    }
+    match (&args[0], &args[1]) {
+        (Arg::Num(Number::Float(_)), _) => true,
+        (Arg::Num(Number::Rational(_)), Arg::Num(e)) => e.to_u32().unwrap() > i32::MAX as u32,
+        _ => false,
+    }
+}
+
+fn builtin(proc_: usize, args: Vec<Arg>) -> String {
+    if proc_ >= PROCS.len() {
+        return "ERR".into();
+    }
+    if proc_ == 26 && expt_is_libm(&args) {
+        return "LIBM".into();
+    }
+    let mut cells = vec![Cell::new_symbol(PROCS[proc_])];
+    for a in args {
+        cells.push(match a {
+            Arg::Num(n) => Cell::Number(n),
+            Arg::Other => Cell::Bool(true),
+        });
+    }
+    let expr = Cell::new_list(cells);
+    VM.with(|slot| {
+        let mut vm = slot.borrow_mut().take().unwrap_or_else(Vm::new);
+        let r = catch_unwind(AssertUnwindSafe(|| vm.eval(&expr)));
+        match r {
+            Ok(res) => {
+                *slot.borrow_mut() = Some(vm);
+                match res {
+                    Ok(Cell::Number(n)) => format!("OK{}", show_num(&n)),
+                    Ok(Cell::Bool(true)) => "OK #t".into(),
+                    Ok(Cell::Bool(false)) => "OK #f".into(),
+                    Ok(_) => "OK other".into(),
+                    Err(_) => "ERR".into(),
+                }
+            }
+            Err(_) => {
+                // the VM may be in an inconsistent state after a panic: rebuild it
+                std::mem::forget(vm);
+                "PANIC".into()
+            }
+        }
+    })
+}
+
+fn ratio_of(c: &[String], i: usize) -> Option<Rational32> {
+    Some(Rational32::new_raw(
+        i32_of(c.get(i)?, c.get(i + 1)?),
+        i32_of(c.get(i + 2)?, c.get(i + 3)?),
+    ))
+}
+
+fn ratio_case(c: &[String]) -> String {
+    // 13 18 bits | 13 op es e a [b]
+    if c.len() == 3 && c[1] == "18" {
+        let bits: u64 = c[2].parse().unwrap();
+        return format!("OK{}", show_opt(&Rational32::from_f64(f64::from_bits(bits)), show_ratio));
+    }
+    if c.len() != 8 && c.len() != 12 {
+        return "BADCASE".into();
+    }
+    let op = c[1].as_str();
+    let e = i64_of(&c[2], &c[3]);
+    let a = ratio_of(c, 4).unwrap();
+    if c.len() == 8 {
+        return match op {
+            "0" => format!("OK{}", show_ratio(&Rational32::new(*a.numer(), *a.denom()))),
+            "6" => format!("OK{}", show_ratio(&a.floor())),
+            "7" => format!("OK{}", show_ratio(&a.ceil())),
+            "8" => format!("OK{}", show_ratio(&a.trunc())),
+            "9" => format!("OK{}", show_ratio(&a.round())),
+            "10" => format!("OK{}", show_ratio(&a.fract())),
+            "11" => format!("OK{}", show_ratio(&a.pow(e as i32))),
+            "12" => format!("OK{}", show_ratio(&a.abs())),
+            "13" => format!("OK{}", show_opt(&a.to_f64(), |f| format!(" {}", show_f64(*f)))),
+            "19" => format!("OK {}", a.to_integer()),
+            "20" => format!("OK {}", a.numer().gcd(a.denom())),
+            "21" => format!("OK {}", Pow::pow(*a.numer(), e as u32)),
+            _ => "BADCASE".into(),
+        };
+    }
+    let b = ratio_of(c, 8).unwrap();
+    match op {
+        "1" => format!("OK{}", show_opt(&a.checked_add(&b), show_ratio)),
+        "2" => format!("OK{}", show_opt(&a.checked_sub(&b), show_ratio)),
+        "3" => format!("OK{}", show_opt(&a.checked_mul(&b), show_ratio)),
+        "4" => format!("OK{}", show_opt(&a.checked_div(&b), show_ratio)),
+        "5" => format!("OK{}", show_ord(&a.cmp(&b))),
+        "14" => format!("OK{}", show_ratio(&(a % b))),
+        "15" => format!("OK{}", show_ratio(&(a / b))),
+        "16" => format!("OK{}", show_ratio(&(a + b))),
+        "17" => format!("OK{}", show_ratio(&(a - b))),
+        _ => "BADCASE".into(),
+    }
+}
+
+pub fn run(c: &[String]) -> String {
+    match c[0].as_str() {
+        "10" => {
+            if c.len() < 3 {
+                return "BADCASE".into();
+            }
+            let mut i = 2;
+            let a = match decode_num(c, &mut i) {
+                Some(a) => a,
+                None => return "BADCASE".into(),
+            };
+            let b = match decode_num(c, &mut i) {
+                Some(b) => b,
+                None => return "BADCASE".into(),
+            };
+            if i != c.len() {
+                return "BADCASE".into();
+            }
+            binary(&c[1], &a, &b)
+        }
+        "11" => {
+            if c.len() < 3 {
+                return "BADCASE".into();
+            }
+            if c[1] == "16" {
+                let e: u32 = match c[2].parse() {
+                    Ok(e) => e,
+                    Err(_) => return "BADCASE".into(),
+                };
+                let mut i = 3;
+                return match decode_num(c, &mut i) {
+                    Some(Number::Float(_)) => "LIBM".into(),
+                    Some(Number::Rational(_)) if e > i32::MAX as u32 => "LIBM".into(),
+                    Some(a) if i == c.len() => format!("OK{}", show_num(&a.pow(e))),
+                    _ => "BADCASE".into(),
+                };
+            }
+            let mut i = 2;
+            match decode_num(c, &mut i) {
+                Some(a) if i == c.len() => unary(&c[1], &a),
+                _ => "BADCASE".into(),
+            }
+        }
+        "12" => {
+            if c.len() < 2 {
+                return "BADCASE".into();
+            }
+            let proc_: usize = c[1].parse().unwrap_or(999);
+            let mut i = 2;
+            let mut args = vec![];
+            while i < c.len() {
+                match decode_arg(c, &mut i) {
+                    Some(a) => args.push(a),
+                    None => return "BADCASE".into(),
+                }
+            }
+            builtin(proc_, args)
+        }
+        "13" => ratio_case(c),
+        "14" => {
+            if c.len() < 3 {
+                return "BADCASE".into();
+            }
+            let k: usize = c[2].parse().unwrap_or(0);
+            let mut i = 3;
+            let mut all = vec![];
+            while i < c.len() {
+                match decode_num(c, &mut i) {
+                    Some(a) => all.push(a),
+                    None => return "BADCASE".into(),
+                }
+            }
+            if k > all.len() {
+                return "BADCASE".into();
+            }
+            let mut o = String::from("ALL");
+            for a in &all[..k] {
+                for b in &all[k..] {
+                    o.push(';');
+                    match catch_unwind(AssertUnwindSafe(|| binary(&c[1], a, b))) {
+                        Ok(s) => o.push_str(&s),
+                        Err(_) => o.push_str("PANIC"),
+                    }
+                }
+            }
+            o
+        }
+        "15" => {
+            let mut i = 1;
+            let a = match decode_num(c, &mut i) {
+                Some(a) => a,
+                None => return "BADCASE".into(),
+            };
+            let b = match decode_num(c, &mut i) {
+                Some(b) if i == c.len() => b,
+                _ => return "BADCASE".into(),
+            };
+            let mut o = String::from("CMP");
+            for op in ["7", "8", "9", "10", "11", "12"] {
+                o.push(';');
+                match catch_unwind(AssertUnwindSafe(|| binary(op, &a, &b))) {
+                    Ok(s) => o.push_str(&s),
+                    Err(_) => o.push_str("PANIC"),
+                }
+            }
+            o
+        }
+        "16" | "17" => {
+            let mut i = 1;
+            let mut args = vec![];
+            while i < c.len() {
+                match decode_arg(c, &mut i) {
+                    Some(a) => args.push(a),
+                    None => return "BADCASE".into(),
+                }
+            }
+            let clone = |a: &Arg| match a {
+                Arg::Num(n) => Arg::Num(n.clone()),
+                Arg::Other => Arg::Other,
+            };
+            if c[0] == "16" {
+                let mut o = String::from("VM");
+                for proc_ in [4, 5, 6, 7, 8, 9, 10] {
+                    o.push(';');
+                    o.push_str(&builtin(proc_, args.iter().map(clone).collect()));
+                }
+                o
+            } else {
+                if args.len() != 3 {
+                    return "BADCASE".into();
+                }
+                let mut o = String::from("TRI");
+                for proc_ in [4, 5, 6, 7, 8] {
+                    for idx in [vec![0, 1], vec![1, 2], vec![0, 2], vec![0, 1, 2]] {
+                        o.push(';');
+                        o.push_str(&builtin(proc_, idx.iter().map(|&j| clone(&args[j])).collect()));
+                    }
+                }
+                o
+            }
+        }
+        _ => "BADCASE".into(),
+    }
 }
